@@ -2,7 +2,7 @@
 from props import schedcommon as sc
 
 PROPERTY = 'C04'
-THEOREMS = ['Sched.rerun_consistent', 'Sched.rerun_envcons', 'Sched.EnvCons_sub', 'Sched.decided_final_frozen', 'Sched.InvD_step', 'Sched.InvD_init', 'Sched.decide_drop_clocks']
+THEOREMS = ['Sched.rerun_consistent', 'Sched.rerun_envcons', 'Sched.EnvCons_sub', 'Sched.decided_final_frozen', 'Sched.InvD_step', 'Sched.InvD_init', 'Sched.decide_drop_clocks', 'Sched.fresh_not_rerun', 'Sched.freshSet_of_envcons', 'Sched.InvF_step', 'Sched.decide_fresh']
 BUDGET = {'quick': 250, 'thorough': 6000}
 TIME_LIMIT = {'quick': 55, 'thorough': 700}
 RULE = ('histories of 2-5 runs with failures, recoveries, lost entries, added tasks' + '; the real QueueScheduling backend runs under the controlled scheduler; non-trivial = '
